@@ -599,7 +599,7 @@ def data_families(d):
     F.append(fam('walk-manifest-toml', 'std.length(std.manifestToml(%s)) > 0' % nobj, 'true'))
     F.append(fam('walk-manifest-yaml-arr', 'std.length(std.manifestYamlDoc(%s)) > 0' % nest, 'true'))
     F.append(fam('walk-manifest-python-obj', 'std.length(std.manifestPython(%s)) > 0' % nobj, 'true'))
-    F.append(fam('walk-top-manifest-arr', 'std.foldl(function(a, i) [a], %s, [])' % r, nested_arr_text(d + 1)))
+    F.append(fam('walk-top-manifest-arr', 'std.foldl(function(a, i) [a], %s, [])' % r, '[' * d + '[ ]' + ']' * d))
     F.append(fam('walk-assert-equal', 'std.assertEqual(%s, %s)' % (nest, nest), 'true'))
     F.append(fam('walk-format-s', 'std.length("%%s" %% [%s])' % nobj, '%d' % (7 * d + 8)))
     return F
@@ -828,7 +828,7 @@ def check_sweep(run, impl_exe, cli, rng, tier, stops=True):
                 text = vlib.uncps(itext)
                 if f['expect'] is not None and text != f['expect']:
                     run.violation('wrong-value-under-limit', '%s evaluates to %s, expected %s' % (where, text[:60], f['expect']), replay)
-                if f['depthful'] and not f.get('positional') and s < f['ratio'] * d:
+                if f['depthful'] and not f['flat'] and not f.get('positional') and s < f['ratio'] * d:
                     run.violation('limit-not-enforced:' + f['name'], '%s: a structure / recursion of depth %d (%d frame(s) per level on the unchanged tree) is walked under a limit of %d frames' % (where, d, f['ratio'], s), replay)
                 if f.get('positional') and not f['genuine_tail'] and s <= d:
                     run.violation('limit-not-enforced:' + f['name'], '%s: a recursion of depth %d whose recursive call is not a tailstrict tail call succeeds under a limit of %d frames' % (where, d, s), replay)
